@@ -135,11 +135,14 @@ impl notify::EventHandler for NotifyEventHandler {
 
                 for path in event.paths {
                     let paths = match event.kind {
-                        notify::EventKind::Any | notify::EventKind::Modify(_) => vec![&*path],
-                        notify::EventKind::Create(_) => match path.parent() {
+                        // A rename changes the content of the parent directory
+                        // too, like a creation
+                        notify::EventKind::Modify(notify::event::ModifyKind::Name(_))
+                        | notify::EventKind::Create(_) => match path.parent() {
                             Some(parent) => vec![&path, parent],
                             None => vec![&*path],
                         },
+                        notify::EventKind::Any | notify::EventKind::Modify(_) => vec![&*path],
                         notify::EventKind::Remove(_) => match path.parent() {
                             Some(parent) => vec![parent],
                             None => vec![],
